@@ -63,6 +63,49 @@ theorem get_of_find {c : Config} {id : Nat} {m : CNode} (h : c.find? id = some m
 theorem get_congr_find {c c' : Config} {id : Nat} (h : c'.find? id = c.find? id) : c'.get id = c.get id := by
   unfold Config.get; rw [h]
 
+/-- the member ids of the configuration are strictly increasing (`Config.Nodes` is a Go map keyed by id; the model keeps
+it as a list sorted by id) -/
+def Srt (c : Config) : Prop := c.nodes.Pairwise (fun a b => a.id < b.id)
+
+theorem Srt.congr {c c' : Config} (h : Srt c) (e : c'.nodes = c.nodes) : Srt c' := by unfold Srt; rw [e]; exact h
+
+theorem sorted_insert (n : CNode) : ∀ (l : List CNode), l.Pairwise (fun a b => a.id < b.id) →
+    (Config.insertSorted n l).Pairwise (fun a b => a.id < b.id) := by
+  intro l
+  induction l with
+  | nil => intro _; exact List.pairwise_singleton _ _
+  | cons m ms ih =>
+    intro h
+    obtain ⟨h1, h2⟩ := List.pairwise_cons.mp h
+    unfold Config.insertSorted
+    split
+    · rename_i hlt
+      refine List.pairwise_cons.mpr ⟨fun x hx => ?_, h⟩
+      rcases List.mem_cons.mp hx with e | e
+      · rw [e]; exact hlt
+      · exact Nat.lt_trans hlt (h1 x e)
+    · split
+      · rename_i _ heq
+        exact List.pairwise_cons.mpr ⟨fun x hx => by rw [heq]; exact h1 x hx, h2⟩
+      · rename_i hnlt hne
+        refine List.pairwise_cons.mpr ⟨fun x hx => ?_, ih h2⟩
+        rcases NoPanic.mem_insertSorted hx with e | e
+        · rw [e]; omega
+        · exact h1 x e
+
+theorem Srt.set {c : Config} (h : Srt c) (n : CNode) : Srt (c.set n) := sorted_insert n c.nodes h
+
+theorem Srt.erase {c : Config} (h : Srt c) (id : Nat) : Srt (c.erase id) := List.Pairwise.filter _ h
+
+/-- whatever `checkConfigAction` proposes for a sorted configuration is sorted -/
+theorem srt_actionConfig {I : Nat} {cfg : Config} {n : CNode} {a : Nat} {st : Repl} {c : Config} (h : Srt cfg)
+    (hc : actionConfig I cfg n a st = some c) : Srt c := by
+  unfold actionConfig at hc
+  repeat' split at hc
+  all_goals first
+    | (injection hc with hc; subst hc; first | exact h.set _ | exact h.erase _)
+    | cases hc
+
 /-! ### rounds -/
 
 /-- the replication waits for the follower to catch up with a round in progress: nothing to do for a promotion -/
@@ -567,6 +610,8 @@ voter; `c'` is the next log entry, of the leader's term -/
 structure Link (c c' : Config) : Prop where
   adj : CfgRel.Adjacent c c'
   anchor : CfgRel.HasAnchor c'
+  /-- sorted member ids are kept -/
+  srt : Srt c → Srt c'
   guard : ∃ y : Node, y.configs.latest = c ∧ y.canChangeConfig = true ∧ y.ldr.node.voter = true ∧
     c'.index = y.lastLogIndex + 1 ∧ c'.term = y.term
 
@@ -692,7 +737,7 @@ theorem k0_tuple {y : Node} {cf : Configs} {a : Bool} {ci st l nv : Nat} {nd : C
 
 theorem store_cfg (s₀ : Node) (m : Nat) (x : Node) (q : QItem) (b c : Config) (hV : V s₀ x)
     (hcan : x.canChangeConfig = true) (hv : x.ldr.node.voter = true) (hq : q.typ = etConfig) (hc : q.cfg = some c)
-    (hd : Deriv b c) (hsv : SameVoters b x.configs.latest) (ha : HasAnchor c) :
+    (hd : Deriv b c) (hsv : SameVoters b x.configs.latest) (hs : Srt x.configs.latest → Srt c) (ha : HasAnchor c) :
     V s₀ (storeItem m x q) ∧ (Failed (storeItem m x q) ∨ Stored x c (storeItem m x q)) := by
   obtain ⟨_, hact, _⟩ := canChange_facts hcan
   unfold storeItem
@@ -770,7 +815,7 @@ theorem store_cfg (s₀ : Node) (m : Nat) (x : Node) (q : QItem) (b c : Config) 
       obtain ⟨d1, d2⟩ := drop_snoc q'.toEntry e0 e1
       refine ⟨k, ext ++ [q'.toEntry], by rw [← List.append_assoc]; exact d1, by rw [hent, ← List.append_assoc]; exact d2, ?_⟩
       rw [hlat]
-      refine .cfg _ c' e2 (by rw [hcfg, hc']) ⟨⟨?_, ?_⟩, ha.congr hn, x, rfl, hcan, hv, hi, ht⟩
+      refine .cfg _ c' e2 (by rw [hcfg, hc']) ⟨⟨?_, ?_⟩, ha.congr hn, fun h => (hs h).congr hn, x, rfl, hcan, hv, hi, ht⟩
       · exact (hd.congr hn).adjacent hsv
       · exact (ha.congr hn).voter
 
